@@ -126,11 +126,13 @@ int main(int argc, char** argv)
                 }
                 return true;
             };
+            // every archive that opens is also mounted the way the runtime mounts it (with or without a prefix property): mounting
+            // reads, it must not write (the directory is compared before and after the case)
+            NullLogger lg;
+            sqf::fileio::impl_default io(lg);
+            io.add_pbo_mapping(p);
             if (pre.has_value() && plain(*pre))
             {
-                NullLogger lg;
-                sqf::fileio::impl_default io(lg);
-                io.add_pbo_mapping(p);
                 vfs.clear();
                 for (auto& d : pbo.files())
                 {
